@@ -282,6 +282,7 @@ class StubsStringGenerator:
 
         # Superclasses
         already_defined_names: set[str] = added_class_attributes.union(added_class_methods)
+        already_defined_names.update(inner_class.name for inner_class in class_.classes if inner_class.is_public)
         superclasses = class_.superclasses
         superclass_info = ""
         superclass_methods_text = ""
@@ -883,13 +884,14 @@ class StubsStringGenerator:
 
         # Inner classes
         for inner_class in superclass_class.classes:
-            if not is_internal(inner_class.name):
+            if not is_internal(inner_class.name) and inner_class.name not in already_defined_names:
                 class_string = self._create_class_string(
                     class_=inner_class,
                     class_indentation=inner_indentations,
                     in_reexport_module=True,
                 )
                 superclass_methods_text += f"\n{class_string}\n"
+                existing_names.add(inner_class.name)
 
         already_defined_names = already_defined_names.union(existing_names)
 
